@@ -6,6 +6,7 @@ package main
 import (
 	"fmt"
 	"reflect"
+	"regexp"
 
 	"github.com/kaptinlin/gozod"
 	"github.com/kaptinlin/gozod/core"
@@ -48,6 +49,8 @@ func applyCks(s any, cs []Ck, float bool) any {
 			s = call(s, m)
 		case "sw", "ew", "inc":
 			s = call(s, m, c.S)
+		case "re":
+			s = reflect.ValueOf(s).MethodByName("Regex").Call([]reflect.Value{reflect.ValueOf(rxCompiled[c.S])})[0].Interface()
 		case "gt", "gte", "lt", "lte", "mul":
 			if float {
 				s = call(s, m, float64(c.N)/4)
@@ -102,7 +105,46 @@ func litValue(j *J) any {
 	panic("literal kind")
 }
 
-func build(s *Sch) core.ZodSchema {
+// rxTable: the user regular expressions String().Regex is exercised with.  The Lean model has the
+// same table (Rx.text) and a hand-written predicate for each (Rx.holds).
+var rxTable = map[string]string{
+	"lw": `^[a-z]+$`,   // a non-empty word of lower-case ASCII letters
+	"dg": `^[0-9]*$`,   // only ASCII digits
+	"hd": `[0-9]`,      // contains an ASCII digit (unanchored)
+	"ab": `^(a|b)`,     // starts with a or b
+	"nx": `^[^x]*$`,    // no letter x
+}
+var rxNames = []string{"lw", "dg", "hd", "ab", "nx"}
+var rxCompiled = func() map[string]*regexp.Regexp {
+	m := map[string]*regexp.Regexp{}
+	for k, v := range rxTable {
+		m[k] = regexp.MustCompile(v)
+	}
+	return m
+}()
+
+// builder: AST → live gozod schema.  One AST NODE (pointer) is built once per builder and the same
+// live instance is handed out wherever that node occurs again: inside one schema (siblings) and
+// in every later top-level schema that embeds the node (children / parents of earlier schemas).
+type builder struct{ memo map[*Sch]core.ZodSchema }
+
+func newBuilder() *builder { return &builder{memo: map[*Sch]core.ZodSchema{}} }
+
+func (b *builder) get(s *Sch) core.ZodSchema {
+	if v, ok := b.memo[s]; ok {
+		return v
+	}
+	v := b.make(s)
+	b.memo[s] = v
+	return v
+}
+
+// build: a fresh, unshared instance tree (what a caller constructing the schema anew would get;
+// AST-level sharing inside the schema is still honoured).
+func build(s *Sch) core.ZodSchema { return newBuilder().get(s) }
+
+func (b *builder) make(s *Sch) core.ZodSchema {
+	build := b.get
 	switch s.K {
 	case "str":
 		return asSchema(applyCks(gozod.String(), s.Cks, false))
@@ -165,6 +207,13 @@ func build(s *Sch) core.ZodSchema {
 		return asSchema(call(build(s.Elem), "Optional"))
 	case "nul":
 		return asSchema(call(build(s.Elem), "Nilable"))
+	case "id":
+		inner := build(s.Elem)
+		m := reflect.ValueOf(inner).MethodByName("Meta")
+		if !m.IsValid() {
+			panic(fmt.Sprintf("no Meta on %T", inner))
+		}
+		return asSchema(m.Call([]reflect.Value{reflect.ValueOf(core.GlobalMeta{ID: s.Name})})[0].Interface())
 	case "obj":
 		shape := core.ObjectSchema{}
 		for _, f := range s.Fields {
@@ -243,7 +292,7 @@ func flatten(cs []*Sch) []*Sch {
 			return
 		}
 		switch s.K {
-		case "opt", "nul":
+		case "opt", "nul", "id":
 			walk(s.Elem)
 		case "union", "xor", "and":
 			for _, it := range s.Items {
